@@ -16,6 +16,7 @@ import (
 type SpecCtx struct {
 	Fn       *ssa.Function
 	NoAlias  bool // names are not parameter names of Fn (interface contract at a call site)
+	IterLocals map[*ssa.Alloc]*cell // set inside iterstart(): locals as they were at the start of the iteration
 	Params   map[string]*Val // entry values
 	PTypes   map[string]types.Type
 	Results  []*Val
@@ -276,6 +277,13 @@ func (e *Engine) localByName(s *State, c *SpecCtx, name string) *SV {
 	}
 	p := c.Frame.Vals[found]
 	t := deref(found.Type())
+	if c.IterLocals != nil {
+		// iterstart(local): the value the local had at the start of the iteration (locals that did not
+		// exist yet keep their current value)
+		if cl, ok := c.IterLocals[found]; ok && cl != nil {
+			return e.svOf(&Val{L: cl.L, NN: cl.NN}, t)
+		}
+	}
 	return e.svOf(e.loadPtr(s, p, found.Type(), nil), t)
 }
 
@@ -553,6 +561,7 @@ func (e *Engine) evalCall(s *State, c *SpecCtx, n *ast.CallExpr) *SV {
 		c2.OldHeap = s.IterHeap
 		c2.OldEpoch = true
 		c2.UseLocalsInOld = true
+		c2.IterLocals = s.IterLocals
 		return e.eval(s, &c2, n.Args[0])
 	case "loopentry":
 		// value of the expression in the heap as it was when the loop was entered (locals: current)
